@@ -57,6 +57,8 @@ class Module:
 
     def _index(self, node, prefix, parent):
         for child in ast.iter_child_nodes(node):
+            if isinstance(child, (ast.expr_context, ast.operator, ast.boolop, ast.unaryop, ast.cmpop)):
+                continue  # interpreter-wide singletons: never annotate them
             child._parent = node
             child._canon = self.canon
             if isinstance(child, FUNC):
